@@ -121,10 +121,46 @@ struct ArenaTree<'a, 'b: 'a> {
   arena: Vec<Node<'a, 'b>>,
 }
 
+/// Do the two values denote the same node of the AST? Nodes are compared by
+/// identity, not by structure: the same sub-expression text may occur several
+/// times in a document (`a = b / b`) and identifiers even compare equal across
+/// different positions, yet every occurrence has its own parent.
+fn same_node(a: &CDDLType, b: &CDDLType) -> bool {
+  use core::ptr::eq;
+  match (a, b) {
+    (CDDLType::CDDL(x), CDDLType::CDDL(y)) => eq(*x, *y),
+    (CDDLType::Rule(x), CDDLType::Rule(y)) => eq(*x, *y),
+    (CDDLType::TypeRule(x), CDDLType::TypeRule(y)) => eq(*x, *y),
+    (CDDLType::GroupRule(x), CDDLType::GroupRule(y)) => eq(*x, *y),
+    (CDDLType::Group(x), CDDLType::Group(y)) => eq(*x, *y),
+    (CDDLType::GroupChoice(x), CDDLType::GroupChoice(y)) => eq(*x, *y),
+    (CDDLType::GenericParams(x), CDDLType::GenericParams(y)) => eq(*x, *y),
+    (CDDLType::GenericParam(x), CDDLType::GenericParam(y)) => eq(*x, *y),
+    (CDDLType::GenericArgs(x), CDDLType::GenericArgs(y)) => eq(*x, *y),
+    (CDDLType::GenericArg(x), CDDLType::GenericArg(y)) => eq(*x, *y),
+    (CDDLType::GroupEntry(x), CDDLType::GroupEntry(y)) => eq(*x, *y),
+    (CDDLType::Identifier(x), CDDLType::Identifier(y)) => eq(*x, *y),
+    (CDDLType::Type(x), CDDLType::Type(y)) => eq(*x, *y),
+    (CDDLType::TypeChoice(x), CDDLType::TypeChoice(y)) => eq(*x, *y),
+    (CDDLType::Type1(x), CDDLType::Type1(y)) => eq(*x, *y),
+    (CDDLType::Type2(x), CDDLType::Type2(y)) => eq(*x, *y),
+    (CDDLType::Operator(x), CDDLType::Operator(y)) => eq(*x, *y),
+    (CDDLType::RangeCtlOp(x), CDDLType::RangeCtlOp(y)) => eq(*x, *y),
+    (CDDLType::ControlOperator(x), CDDLType::ControlOperator(y)) => eq(*x, *y),
+    (CDDLType::Occurrence(x), CDDLType::Occurrence(y)) => eq(*x, *y),
+    (CDDLType::ValueMemberKeyEntry(x), CDDLType::ValueMemberKeyEntry(y)) => eq(*x, *y),
+    (CDDLType::TypeGroupnameEntry(x), CDDLType::TypeGroupnameEntry(y)) => eq(*x, *y),
+    (CDDLType::MemberKey(x), CDDLType::MemberKey(y)) => eq(*x, *y),
+    (CDDLType::NonMemberKey(x), CDDLType::NonMemberKey(y)) => eq(*x, *y),
+    // Occur and Value are held by value: they have no identity of their own
+    _ => a == b,
+  }
+}
+
 impl<'a, 'b: 'a> ArenaTree<'a, 'b> {
   fn node(&mut self, val: CDDLType<'a, 'b>) -> usize {
     for node in self.arena.iter() {
-      if node.val == val {
+      if same_node(&node.val, &val) {
         return node.idx;
       }
     }
@@ -190,7 +226,7 @@ impl<'a, 'b: 'a> ParentVisitor<'a, 'b> {
 impl<'a, 'b: 'a> CDDLType<'a, 'b> {
   pub fn parent(&self, visitor: &'b ParentVisitor<'a, 'b>) -> Option<&'b CDDLType<'a, 'b>> {
     for node in visitor.arena_tree.arena.iter() {
-      if self == &node.val {
+      if same_node(self, &node.val) {
         if let Some(parent_idx) = node.parent {
           if let Some(parent) = visitor.arena_tree.arena.get(parent_idx) {
             return Some(&parent.val);
